@@ -30,8 +30,20 @@ class C08(Prop):
 
     def strategy(self, tier):
         # with_ids: definitions also carry an EDIF.identifier (as after an EDIF read or export)
-        return st.tuples(gen_ir.recipes(self.cfg(tier)), st.booleans()).map(
-            lambda t: dict(t[0], with_ids=t[1]))
+        from vf import gen_verilog
+        from vf.props.c05 import NAMES
+
+        api = st.tuples(gen_ir.recipes(self.cfg(tier)), st.booleans(), st.booleans()).map(
+            lambda t: dict(t[0], with_ids=t[1], via_clone=t[2]))
+        ecfg = gen_ir.Cfg(unnamed=False, alphabet=NAMES, max_defs=6, max_children=4, max_width=3,
+                          share=True, top="always", lib_monotone=True, reorder=False,
+                          top_modes=["standalone"], data_values="edif")
+        # netlists as the readers leave them (identifiers, EDIF policy, Verilog assignment library)
+        rd = st.one_of(
+            st.fixed_dictionaries({"kind": st.just("edif"), "design": gen_ir.recipes(ecfg),
+                                   "stream": st.lists(st.integers(0, 63), min_size=8, max_size=20)}),
+            st.fixed_dictionaries({"kind": st.just("verilog"), "design": gen_verilog.designs()}))
+        return st.one_of(api, api, api, st.fixed_dictionaries({"reader": rd, "via_clone": st.booleans()}))
 
     def fixed_cases(self, tier):
         return gen_ir.example_cases(tier)
@@ -47,6 +59,12 @@ class C08(Prop):
             if nl is None or nl.top_instance is None or model.wf(nl, strict=True):
                 res.label("example-not-usable")
                 return res
+        elif "reader" in case:
+            from vf.props.c07 import C07
+            nl = C07.read_source(res, case["reader"])
+            if nl is None or nl.top_instance is None:
+                return res
+            res.label("reader-built-" + case["reader"]["kind"])
         else:
             B = gen_ir.build(case)
             nl = B.netlist
@@ -62,6 +80,12 @@ class C08(Prop):
                                 D["EDIF.identifier"] = D.name
                             except ValueError:
                                 pass
+        if case.get("via_clone"):
+            try:
+                nl = nl.clone()
+                res.label("on-a-clone")
+            except Exception:  # noqa (C07's business)
+                pass
         before = model.elab(nl)
         defs_before = {id(D): D for L in nl.libraries for D in L.definitions}
         names_before = {id(D): D.name for D in defs_before.values()}
